@@ -232,6 +232,13 @@ func execWindow(c Case) [][][]string {
 		case "tick":
 			window.VerifWatermarkTick(w)
 		case "pttick":
+			for _, g := range op[1:] {
+				p := strings.Split(g, ":")
+				if len(p) >= 3 {
+					k, _ := strconv.Atoi(p[0])
+					gaps = append(gaps, gapAdd{k, rowOf(p[1], p[2], "")})
+				}
+			}
 			w.Trigger()
 		default:
 			cur = append(cur, []string{"bad-op"})
